@@ -400,7 +400,16 @@ def indication_slot(ctx, rule='C10.indication-slot'):
         ok = any('self.indication_semaphores[bearer]' in norm(it.context_expr) for w in withs for it in w.items)
         R.check(ok, rule, f'{SRV}._indicate_single_bearer | sent under the per-bearer semaphore', 'inside `async with self.indication_semaphores[bearer]`', 'the indication is sent without holding the per-bearer indication semaphore: two can be outstanding', p.loc(c))
         trys = [a for a in _anc(c) if isinstance(a, ast.Try)]
-        ok = any(any(norm(s) == 'self.pending_confirmations[bearer] = None' for s in t.finalbody) for t in trys)
+        def _clears(t):
+            for s_ in t.finalbody:
+                for x in ast.walk(s_):
+                    if isinstance(x, ast.Assign) and norm(x) == 'self.pending_confirmations[bearer] = None':
+                        # unconditional, or only skipped when the bearer's entry is gone altogether (teardown)
+                        g = [(norm(tt), pol) for tt, pol in paths.flat_guards(x, stop=t)]
+                        if all(gg == ('bearer in self.pending_confirmations', True) for gg in g):
+                            return True
+            return False
+        ok = any(_clears(t) for t in trys)
         R.check(ok, rule, f'{SRV}._indicate_single_bearer | slot cleared in finally', 'pending_confirmations[bearer] = None in finally', 'the pending-confirmation slot is not cleared on every exit (timeout/cancel leaves it set)', p.loc(c))
         waits = [n for t in trys for n in ast.walk(t) if isinstance(n, ast.Await) and 'pending_confirmation' in norm(n)]
         R.check(bool(waits) and all('wait_for' in norm(w) for w in waits), rule, f'{SRV}._indicate_single_bearer | confirmation awaited with timeout', 'awaits the confirmation under wait_for', 'the confirmation is not awaited (or awaited without a timeout) while the semaphore is held', p.loc(c))
